@@ -73,8 +73,9 @@ def drain_monitor(b, key):
             except M.ModelError:
                 continue
             if isinstance(what, b.rep.Substance):
-                ms = W.msubs.get(what.name)
-                if ms is None:
+                try:
+                    ms = W.msubs[W.key_of(what)]
+                except KeyError:
                     continue
                 amt = F(quantity) * u.amt_mult(ms)
                 exp = amt * ms.per_amount(bo)
@@ -144,8 +145,8 @@ def check_items(b, text, contents_model: M.MVessel, key, clause, what):
         return
     seen = set()
     for shown, unit, name in items:
-        name = name.strip()
-        if name not in W.msubs:
+        name = W.key_of_name(name.strip())      # the text carries the name only: twins cannot be told apart in it
+        if name is None:
             b.stats['instr:skipped'] += 1
             continue
         try:
@@ -162,7 +163,7 @@ def check_items(b, text, contents_model: M.MVessel, key, clause, what):
             b.V('C19', clause, key + (base, W.msubs[name].kind),
                 f"{what}: instruction says '{shown} {unit} of {name}', contents hold {float(exact / mult):.9g} {unit}")
     for n, a in contents_model.contents.items():
-        if a > 20 * W.q_amt(n) and n not in seen and len(items) > 0:
+        if a > 20 * W.q_amt(n) and n not in seen and len(items) > 0 and len(W.keys_of_name[W.real_name[n]]) == 1:
             b.V('C19', clause + '_missing', key, f"{what}: {n} ({float(a):.6g}) was added but is not named in '{text[:120]}'")
 
 
@@ -263,7 +264,7 @@ def check_dilute(b, ev, dinfo, res, key):
     exact = added * W.msubs[solvent].per_amount(base)
     ok, _ = shown_ok(b, shown, unit, exact, 20 * W.q_amt(solvent) * W.msubs[solvent].per_amount(base))
     b.stats['instr:checked'] += 1
-    if not ok or name != solvent:
+    if not ok or name != W.real_name[solvent]:
         b.V('C19', 'dilute_amount', key + (base,), f"{res.name}: instruction says '{dl[-1]}', actually added {float(exact / mult):.9g} {unit} of {solvent}")
 
 
@@ -272,6 +273,9 @@ def check_fill(b, ev, finfo, res, key):
     W = b.world
     solvent = ev['solvent']
     cells = [None] if t.kind == 'container' else t.cells
+    if len(set(cells)) != len(cells):
+        b.stats['instr:skipped'] += 1      # a well named twice is filled twice (the second time with nothing)
+        return
     for cell in cells:
         old = (t.base if cell is None else t.base.wells[cell]).instructions
         r = res if cell is None else res.wells[cell]
@@ -295,7 +299,7 @@ def check_fill(b, ev, finfo, res, key):
         exact = added * W.msubs[solvent].per_amount(base)
         ok, _ = shown_ok(b, shown, unit, exact, 20 * W.q_amt(solvent) * W.msubs[solvent].per_amount(base))
         b.stats['instr:checked'] += 1
-        if not ok or name != solvent:
+        if not ok or name != W.real_name[solvent]:
             b.V('C19', 'fill_amount', key + (base,), f"{r.name}: instruction says '{fl[-1]}', actually added {float(exact / mult):.9g} {unit} of {solvent}")
             return
 
@@ -461,7 +465,7 @@ def check_recipe_instructions(run):
             exact = added * W.msubs[c['solvent']].per_amount(base)
             ok, _ = shown_ok(b, shown, unit, exact, 20 * W.q_amt(c['solvent']) * W.msubs[c['solvent']].per_amount(base))
             b.stats['instr:checked'] += 1
-            if not ok or solvent != c['solvent'] or solute != c['solute']:
+            if not ok or solvent != W.real_name[c["solvent"]] or solute != W.real_name[c["solute"]]:
                 b.V('C19', 'step_dilute_amount', key + (base,), f"step {i}: '{text}', the eager reference added {float(exact / mult):.9g} {unit} of {c['solvent']}", kid)
         elif k == 'fill_to':
             name = c['tgt'][0]
@@ -480,7 +484,7 @@ def check_recipe_instructions(run):
                 exact = added * W.msubs[solvent].per_amount(base)
                 ok, _ = shown_ok(b, shown, unit, exact, 40 * W.q_amt(solvent) * W.msubs[solvent].per_amount(base) + 2 * run.fill_slack(ma, solvent) * W.msubs[solvent].per_amount(base))
                 b.stats['instr:checked'] += 1
-                if not ok or sv != solvent:
+                if not ok or sv != W.real_name[solvent]:
                     b.V('C19', 'step_fill_amount', key + (base,), f"step {i}: '{text}', the eager reference added {float(exact / mult):.9g} {unit} of {solvent}", kid)
             else:
                 m = RE_STEP_FILL_PLATE.match(text)
